@@ -56,7 +56,7 @@ def run_live(ctx, plan):
                 with open(cj, 'w') as f:
                     json.dump({'Power': cfg.power, 'Byz': cfg.byz, 'MaxRound': cfg.max_round, 'Heights': heights,
                                'Seed': seed, 'LimitMs': 60000, 'ByzActive': bool(getattr(cfg, 'byz_active', False)),
-                               'Scale': getattr(cfg, 'scale', 0)}, f)
+                               'Scale': getattr(cfg, 'scale', 0), 'Stack': bool(getattr(cfg, 'stack', False))}, f)
                 p = subprocess.run([os.path.join(engine.HARNESS, engine.BIN, 'csim'), 'live', cj, out],
                                    stdout=subprocess.PIPE, stderr=subprocess.PIPE, text=True, errors='replace',
                                    timeout=300, env=engine.GOENV)
@@ -83,6 +83,11 @@ def run_live(ctx, plan):
                 with open(out, 'w') as f:
                     f.write('\n'.join(lines) + ('\n' if lines else ''))
                 events += len(lines)
+                if getattr(cfg, 'stack', False):
+                    ctx.cov['live_stack_traces'] = ctx.cov.get('live_stack_traces', 0) + 1
+                    ctx.cov['live_stack_relayed_votes'] = ctx.cov.get('live_stack_relayed_votes', 0) + sum(
+                        1 for ln in lines for rec in [json.loads(ln)]
+                        if rec['a'] == 'Peer' and rec['m'].get('t') == 'V' and rec.get('pk') != rec['m'].get('by'))
                 r = tm.validate_trace(ctx, cfg, out)
                 ctx.cov['tlc_runs'].append(dict(r.summary(), name='Trace/%s/%d' % (cfg.name, seed), exhaustive=False))
                 if r.ok and not r.violation:
